@@ -40,7 +40,8 @@ def gen_spec(rnd, n=None):
         cells.append({"name": "c%d" % i, "space": space, "terms": terms, "rec": rnd.random() < 0.3,
                       "cached": rnd.random() > 0.3, "refs": refs, "two": rnd.random() < 0.3,
                       "refs_first": rnd.random() < 0.5})
-    return {"cells": cells, "refvals": {"r": rnd.randint(1, 5), "k": rnd.randint(1, 5), "g": rnd.randint(1, 5)}}
+    return {"cells": cells, "refvals": {"r": rnd.randint(1, 5), "k": rnd.randint(1, 5), "g": rnd.randint(1, 5)},
+            "allow_none": rnd.random() < 0.5}
 
 
 def callee_text(spec, i, j):
@@ -87,6 +88,8 @@ def build(spec, probe):
                 return 0
             raise
     m.catch__ = catch
+    if spec.get("allow_none"):
+        m.allow_none = True        # None may then be assigned (only to elements no formula reads, see gen_ops)
     m.g = spec["refvals"]["g"]
     A = m.new_space("A")
     Ch = A.new_space("Ch")
@@ -228,7 +231,14 @@ def gen_ops(rnd, spec, nops, recalc=False, with_failures=False):
             ops.append({"op": k, "i": i, "x": x, "at": rnd.randrange(1, 7) if k == "fail_caught" else rnd.randrange(6),
                         "when": rnd.choice(["pre", "post"])})
         else:
-            ops.append({"op": k, "i": i, "x": x, "value": 1000 + len(ops)})
+            value = 1000 + len(ops)
+            if k == "assign" and spec.get("allow_none") and rnd.random() < 0.3:
+                # None as an assigned value, for an element no formula reads (a formula would fail on None + 1)
+                free = [j for j, c in enumerate(spec["cells"]) if c["cached"] and not c["rec"]
+                        and not any(t[0] == j for c2 in spec["cells"] for t in c2["terms"])]
+                if free:
+                    i, value = rnd.choice(free), None
+            ops.append({"op": k, "i": i, "x": x, "value": value})
     return ops
 
 
